@@ -5,6 +5,7 @@ package ristretto
 // E1 "cachesm", part 3: generators, profiles (one per property), runner, tests.
 
 import (
+	"encoding/json"
 	"fmt"
 	"os"
 	"sort"
@@ -481,6 +482,10 @@ func vfCacheProperty(ev *vfEvidence, profile string) func(t *rapid.T) {
 		}
 		if out.diverged != "" {
 			ev.Excluded("diverged_other=" + out.diverged)
+			if os.Getenv("VFDBG") != "" {
+				b, _ := json.Marshal(c)
+				fmt.Println("DBG-DIVERGED-CASE", out.diverged, string(b))
+			}
 			return
 		}
 		if out.resynced > 0 {
